@@ -132,14 +132,14 @@ func newRing(power []int64) *ring {
 // vspec is the JSON-able description of one vote handed to AddVote.
 type vspec struct {
 	Nil    bool   `json:"nil_vote,omitempty"`
-	Val    int    `json:"val"`            // claimed validator index
-	Addr   int    `json:"addr"`           // ring index whose address is claimed (-1: zero address)
-	Signer int    `json:"signer"`         // ring/pool index of the signing key
-	Blk    int    `json:"blk"`            // index into blockUniverse (0 = nil block)
-	Ts     int    `json:"ts"`             // timestamp offset (s)
-	H      int64  `json:"h"`              // height
-	R      int    `json:"r"`              // round
-	T      byte   `json:"t"`              // type
+	Val    int    `json:"val"`              // claimed validator index
+	Addr   int    `json:"addr"`             // ring index whose address is claimed (-1: zero address)
+	Signer int    `json:"signer"`           // ring/pool index of the signing key
+	Blk    int    `json:"blk"`              // index into blockUniverse (0 = nil block)
+	Ts     int    `json:"ts"`               // timestamp offset (s)
+	H      int64  `json:"h"`                // height
+	R      int    `json:"r"`                // round
+	T      byte   `json:"t"`                // type
 	Tamper string `json:"tamper,omitempty"` // "", flip, short, empty, stale (signed over another timestamp)
 }
 
